@@ -706,11 +706,44 @@ static void stampRound(int T, long opsPerThread, int round)
 }
 
 // ------------------------------------------------------------------ main
+// ------------------------------------------------------------------ part (c): objects with static storage
+// Stamps taken before main() - by objects with static storage in the application's translation unit, which in the
+// `appfirst` variant is initialised BEFORE the library's (static link, the application's objects in front) - are stamps
+// like any other: unique, and smaller than everything taken later on the same (main) thread; an observer created at
+// that time sees a notification issued from main().
+static TimeStamp g_earlyA;
+static TimeStamp g_earlyB;
+static Observable g_earlySubject;
+static Observer g_earlyObserver(g_earlySubject);
+static TimeStamp g_earlyC;
+
+static void earlyStatics()
+{
+  std::string ctx = "objects with static storage in the application, variant " + vh::st().variant;
+  size_t a = g_earlyA, b = g_earlyB, c = g_earlyC;
+  TimeStamp now1, now2;
+  size_t n1 = now1, n2 = now2;
+  if (!(a < b && b < c))
+    vh::violation("C19:timestamp:static-objects-not-increasing", "stamps of three static objects defined in this order: " + std::to_string(a) + ", " + std::to_string(b) + ", " + std::to_string(c), ctx);
+  if (!(c < n1 && n1 < n2))
+    vh::violation("C19:timestamp:fresh-not-larger-than-earlier-value", "a stamp taken in main() (" + std::to_string(n1) + ", " + std::to_string(n2) + ") is not larger than the ones the same thread took before main() (" + std::to_string(a) + ", " +
+                                                                           std::to_string(b) + ", " + std::to_string(c) + ")", ctx);
+  bool before = g_earlyObserver.wasNotified();
+  g_earlySubject.notifyObservers();
+  bool after = g_earlyObserver.wasNotified(), again = g_earlyObserver.wasNotified();
+  if (before || !after || again)
+    vh::violation("C19:observer:static-observer-notification", std::string("observer with static storage: wasNotified() before any notification=") + (before ? "true" : "false") + ", after notifyObservers()=" + (after ? "true" : "false") +
+                                                                   ", polled again=" + (again ? "true" : "false") + " (expected false, true, false)", ctx);
+  vh::count("static_storage_scenarios");
+  vh::evaluatedN(3);
+}
+
 int main(int argc, char **argv)
 {
   vh::init(argc, argv);
+  earlyStatics();
   vh::rule(
-      "(a) observer histories: 5 scripted + seeded random (<= 17 random operations over 3 observables x 5 observers, then random "
+      "(c) stamps and an observer with static storage, taken before main(); (a) observer histories: 5 scripted + seeded random (<= 17 random operations over 3 observables x 5 observers, then random "
       "final polls and destruction of everything in random order, <= 30 operations); every poll is one evaluation against the "
       "epoch model; distinct = hash of the operation sequence, non-trivial = at least one poll expected true and one expected "
       "false. (b) stamps: one distinct case per (thread count, round), non-trivial when more than one thread; every gathered "
